@@ -23,6 +23,77 @@ Definition eval (g : graph) (c : cfg) (cs : cbset) (d0 : list node) (tr : list e
   end.
 """
 
+_LINKS_PRELUDE = """From Oras Require Import Base.Prelude Generated.GC01 Model.CopySpec Model.CopyLinks.
+Local Open Scope nat_scope.
+Local Open Scope string_scope.
+Fixpoint nats_eqb (a b : list nat) : bool :=
+  match a, b with [], [] => true | x :: a', y :: b' => Nat.eqb x y && nats_eqb a' b' | _, _ => false end.
+(* per node: fields, the successor list and the flags (foreign, manifest) the harness gave to the acceptor *)
+Definition links_ok (l : list (mfields * (list nat * (bool * bool)))) : bool :=
+  forallb (fun x => match x with (f, (succ, (fo, mf))) =>
+     nats_eqb (successors f) succ && Bool.eqb (is_foreign_mt (f_mt f)) fo && Bool.eqb (is_manifest_mt (f_mt f)) mf end) l.
+"""
+
+
+def _links_goal(case):
+    f = case.split(" ")
+    lk = [x for x in f if x.startswith("lk=")]
+    if not lk or len(f) < 9:
+        return None
+    specs = f[5].split(";")
+    nodes = lk[0][3:].split(";")
+    if len(specs) != len(nodes):
+        return None
+    rows = []
+    for sp, nd in zip(specs, nodes):
+        a, _, c = sp.split("/")
+        mt, S, C, L, M, B = nd.split("|")
+        opt = lambda v: "None" if v[1:] == "-" else "(Some %s)" % v[1:]
+        lst = lambda v: "[" + "; ".join([] if v[1:] == "-" else v[1:].split("+")) + "]"
+        rows.append('(mkFields "%s" %s %s %s %s %s, (%s, (%s, %s)))' % (
+            mt, opt(S), opt(C), lst(L), lst(M), lst(B), _nats(c), _b("f" in a), _b("m" in a)))
+    return "links_ok [%s] = true" % "; ".join(rows)
+
+
+def links_check(d, tier, coq, build):
+    """every distinct generated graph: the regenerated link schema applied to the generator's fields gives the
+    successor lists and flags that the acceptor was run with (vm_compute inside Coq)"""
+    want = 2000 if tier == "thorough" else 250
+    seen, goals = set(), []
+    with open(os.path.join(d, "cases.txt")) as f:
+        for l in f:
+            i, _, c = l.rstrip("\n").partition(" ")
+            p = c.split(" ")
+            if len(p) < 9:
+                continue
+            key = (p[5], [x for x in p if x.startswith("lk=")][:1] and [x for x in p if x.startswith("lk=")][0])
+            if key in seen or not key[1]:
+                continue
+            seen.add(key)
+            g = _links_goal(c)
+            if g:
+                goals.append((i, g))
+            if len(goals) >= want:
+                break
+    vdir = os.path.join(build, "vm")
+    os.makedirs(vdir, exist_ok=True)
+    vf = os.path.join(vdir, "GC01_links.v")
+    with open(vf, "w") as f:
+        f.write(_LINKS_PRELUDE)
+        for i, g in goals:
+            f.write("\n(* %s *)\nGoal %s.\nProof. vm_compute. reflexivity. Qed.\n" % (i, g))
+    p = subprocess.run(["coqc", "-R", coq, "Oras", "-w", "-notation-overridden", vf], cwd=vdir, timeout=1500,
+                       stdout=subprocess.PIPE, stderr=subprocess.STDOUT, text=True)
+    with open(os.path.join(d, "links_check.txt"), "w") as f:
+        f.write("%d graphs rc=%d\n%s" % (len(goals), p.returncode, p.stdout[-3000:]))
+    if p.returncode != 0:
+        return ["link schema check: the schema regenerated from content.Successors / IsManifest / IsForeignLayer, applied to the "
+                "generator's link fields, does not give the successor lists / flags of %d graphs: %s" % (len(goals), p.stdout[-600:])]
+    if len(goals) < 20:
+        return ["link schema check: only %d graphs" % len(goals)]
+    return []
+
+
 _KIND = {"pre": "CPre", "post": "CPost", "skip": "CSkip", "mounted": "CMounted", "mountfrom": "CMountFrom"}
 
 
@@ -136,5 +207,7 @@ def vm_sample(gen):
                     % (len(goals), p.stdout[-600:])]
         if len(goals) < min(want, 20):
             return ["in-Coq re-evaluation: only %d cases could be sampled" % len(goals)]
+        if gen == "GC01":
+            return links_check(d, tier, coq, build)
         return []
     return hook
